@@ -135,8 +135,8 @@ CHECKS = {
             'printed over a full time x mu x phi grid (blocks in lexicographic order, each key with the first block it applies '
             'to) is read under pairwise distinct indices (cursors_blocks, cursors_blocks_nodup), _get_number_of_bins finds '
             'the three dimensions (nbBins_blocks), and the row printed for (group, time step, mu zone, phi zone) is the '
-            'content of the cell at those indices. grid_fill_returns (added last): on such a grid fill_arrays_and_bins returns (neither the bins nor the index error) when no block has more rows than the first one and the rows of the first block continue each other (fillRows_succeeds, fill_succeeds_rest). '
-            'NOT proved: the other half of "convert returns on such a grid" (that add_last_bins finds the last edges: still a hypothesis), grids '
+            'content of the cell at those indices. grid_read (added last): on such a grid convert_spectrum RETURNS and every printed row is in its cell — the former hypothesis is discharged when no block has more rows than the first one, the last block has a row and the rows of the first block continue each other (grid_fill_returns: fill_arrays_and_bins raises neither the bins nor the index error, fillRows_succeeds / fill_succeeds_rest; muKeys_grid / phiKeys_grid: it collects exactly one edge per mu zone and per phi zone, the first printed bounds in order; negBlock_grid / addLast_returns: add_last_bins finds the last edges in the blocks that carry them; grid_convert_returns). '
+            'NOT proved: grids '
             'without one of the axes, the pyparsing grammar, the mesh / Green '
             'bands / IFP / keff / sensitivity builders, the Apollo3 reader and picker. These are decided on every run by (a) '
             'bit-exact correspondence of `convert` with common.convert_spectrum + data_convertor.convert_data on generated '
